@@ -56,8 +56,23 @@ pub fn check_openings(cx: &mut Cx, frame: &str, v: &Value, secrets: &[Secret], p
             }
         }
     }
-    // secrets in clear among the integer leaves
+    // secrets recoverable by one exact division of a leaf by a challenge or by 1 + challenge
     let ls = leaves(v);
+    let chals: Vec<(String, Integer)> = ls.iter().filter(|(p, _)| { let l = p.rsplit('.').next().unwrap_or(""); l == "challenge" || l == "C" }).map(|(p, x)| (generic_path(p), x.clone())).collect();
+    for (path, x) in &ls {
+        for (cp, c) in &chals {
+            for (dn, d) in [("c", c.clone()), ("1+c", Integer::from(c + 1u32))] {
+                if d <= 1 || !x.is_divisible(&d) { continue; }
+                let q = Integer::from(x / &d);
+                for s in secrets {
+                    if q == s.value && s.value.significant_bits() > 64 {
+                        cx.violation("C17", format!("{frame}/{}/recovers-by-division/{}", generic_path(path), s.kind), format!("{path} / ({dn} with c = {cp}) equals the sender's {} exactly", s.kind));
+                    }
+                }
+            }
+        }
+    }
+    // secrets in clear among the integer leaves
     cx.add("n.integer_leaves_scanned", ls.len() as u64);
     for (path, x) in &ls {
         for s in secrets {
@@ -203,6 +218,48 @@ pub fn run(cx: &mut Cx, which: Which) {
             }
         });
     });
+    // every eighth run: a wide credential (more than 64 attributes) with hidden attributes beyond
+    // position 63, presented and observed the same way
+    if cx.run_index % 8 == 3 {
+        let n = 65 + cx.ch.choose("wide_n", (WIDE - 65) as u64 + 1) as usize;
+        let mut hidden_w = vec![cx.ch.choose("wide_hidden_low", 64) as usize, 64 + cx.ch.choose("wide_hidden_high", (n - 64) as u64) as usize];
+        if cx.ch.chance("wide_last_hidden", 1, 2) && !hidden_w.contains(&(n - 1)) { hidden_w.push(n - 1); }
+        hidden_w.sort();
+        let msgs_w: Vec<Integer> = (0..n).map(|i| gen_attr(seed, 3000 + i as u64, 0).value).collect();
+        cx.count("probe.wide_credential_presented");
+        let (k6, m6, h6) = (key.clone(), msgs_w.clone(), hidden_w.clone());
+        let key7 = key.clone();
+        let decoy7 = gen_attr(seed, 9998, 0).value;
+        cx.step(holder, "wide-proof_gen", StepOpts::default(), move || { let (sig, pj) = wide_issue_and_present(&k6, &m6, &h6); let rev: Vec<Integer> = (0..m6.len()).filter(|i| !h6.contains(i)).map(|i| m6[i].clone()).collect(); let ok = wide_verify(&k6, &pj, &rev, &h6, m6.len()); (sig, pj, ok) }, move |cx, st| {
+            let Ok((sig, pj, ok)) = st.out else { cx.log("wide proof_gen failed (C15's business)".into()); return; };
+            if !ok { cx.log("wide proof does not verify (C15's business)".into()); }
+            let v = parse(&pj);
+            cx.eval(&[b"wide-pok", pj.as_bytes()], true);
+            let mut secrets: Vec<Secret> = hidden_w.iter().map(|&i| Secret { kind: "hidden-attribute".into(), value: msgs_w[i].clone() }).collect();
+            secrets.push(Secret { kind: "signature-e".into(), value: sig.0.clone() });
+            secrets.push(Secret { kind: "signature-v".into(), value: sig.2.clone() });
+            secrets.push(Secret { kind: "signature-s".into(), value: sig.1.clone() });
+            match which {
+                Which::Openings => {
+                    // base pairs of the wide key: only the hidden positions matter
+                    let pairs: Vec<BasePair> = hidden_w.iter().map(|&i| BasePair { name: "(g_i,h)".into(), g: key7.cpk_wide.g_bases[i].clone(), h: key7.cpk_wide.h.clone(), n: key7.cpk_wide.N.clone() }).chain(std::iter::once(BasePair { name: "(g_i,h)".into(), g: key7.cpk_wide.g_bases[0].clone(), h: key7.cpk_wide.h.clone(), n: key7.cpk_wide.N.clone() })).collect();
+                    if let Some(w) = int_of(&v["CL03"]["spok"]["Cv"]["randomness"]) { secrets.push(Secret { kind: "blinding-w-of-v".into(), value: w }); }
+                    check_openings(cx, "PoKSignature", &v, &secrets, &pairs, &decoy7);
+                }
+                Which::Masking => {
+                    for (p, _val, rnd) in commitment_objects(&v) { secrets.push(Secret { kind: format!("opening-randomness-of:{}", generic_path(&p)), value: rnd }); }
+                    let mut extra = Vec::new();
+                    if let Some(arr) = v["CL03"]["proofs_commited_mi"].as_array() {
+                        for (k, pv) in arr.iter().enumerate() {
+                            let i = hidden_w[k];
+                            if let (Some(t), Some(cv)) = (int_of(&pv["value"]["t"]), int_of(&pv["commitment"]["value"])) { extra.push(("recomputed:proofs_commited_mi[*]".to_string(), nisp_secrets_challenge(&key7.cpk_wide.g_bases[i], &key7.cpk_wide.h, &cv, &t))); }
+                        }
+                    }
+                    check_masking(cx, "PoKSignature", &v, &secrets, &extra);
+                }
+            }
+        });
+    }
     cx.run();
     let _: Option<Arc<KeyMat>> = None;
 }
